@@ -36,6 +36,7 @@ Unlisted == { Dom(<<x, zq>>), zq, Dom(<<x, <<113, 113>>>>), Dom(<<x, Rep(113, 63
 
 \* reserved names behind labels of every length
 Lb(n) == Rep(97, n)
+XnP1ai == <<120, 110, HYPHEN, HYPHEN, 112, 49, 97, 105>>
 Res2 == { Dom(<<S_example, t>>) : t \in ExampleSlds }
 ResAll == ReservedTlds \cup Res2
 CaseV(s) == {s, UpperS(s), MixedS(s)}
@@ -49,6 +50,11 @@ FamRes ==
             Dom(<<x, r>>) \o <<DOT>>, r \o <<DOT>> } : r \in ResAll } \cup
   UNION { { e, Dom(<<x, e>>), Dom(<<Lb(7), e>>) } : e \in UNION { Edit1(r) : r \in ResAll } } \cup
   UNION { UNION { { SubSeq(r, 1, j), Dom(<<x, SubSeq(r, 1, j)>>), Dom(<<x, SubSeq(r, j, Len(r))>>) } : j \in 2..Len(r) } : r \in ReservedTlds } \cup
+  \* an A-label (or a label that merely looks like one) in front of a reserved name; syntactically invalid domains that end
+  \* in a reserved name (they are invalid host names, not special domains)
+  UNION { { Dom(<<XnP1ai, r>>), Dom(<<XnP1ai, x, r>>), Dom(<<x, XnP1ai, r>>), Dom(<<<<120, 110, HYPHEN, HYPHEN, 97>>, r>>),
+            Dom(<<<<97, USCORE, 98>>, r>>), Dom(<<<<120, 33, 121>>, r>>), <<120, DOT, DOT>> \o r, <<DOT>> \o r, Dom(<<<<HYPHEN, 97>>, r>>),
+            Dom(<<<<97, HYPHEN>>, r>>), Dom(<<x, <<97, SP, 98>>, r>>), Dom(<<Lb(64), r>>), Dom(<<<<49, 50, 51>>, r>>) } : r \in ResAll } \cup
   \* a reserved word extended by one to five characters (in front or behind), alone and as last label
   UNION { UNION { { r \o Rep(120, n), Rep(120, n) \o r, Dom(<<x, r \o Rep(120, n)>>), Dom(<<x, Rep(120, n) \o r>>), Dom(<<S_example, S_com \o Rep(120, n)>>) }
                   : n \in 1..5 } : r \in ReservedTlds } \cup
